@@ -3,7 +3,7 @@
    (what the code does) and C08/Spec.v (what a valid file is; wf_state). *)
 From Coq Require Import List NArith ZArith Bool String Ascii Permutation Reals.
 From T4V Require Import Base.Str C08.Model C08.Spec C08.ProofsSets C08.ProofsWrite C08.ProofsPrune
-     C08.ProofsTail C08.SurfEq C08.Parse C08.ProofsChars C08.ProofsParse C08.Check C08.ProofsRefute.
+     C08.ProofsTail C08.SurfEq C08.Parse C08.ProofsChars C08.ProofsParse C08.ProofsGiven C08.CheckText C08.Check C08.ProofsRefute.
 Import ListNotations.
 
 (* VolumeT4.__str__: for EVERY volume (no hypothesis), each declared count equals the
@@ -141,6 +141,35 @@ Print Assumptions C08_convert_tail_wf_R.
 Theorem C08_print_parse_roundtrip : forall f, printable f -> parse_t4 (print_t4 f) = Some f.
 Proof. exact parse_print_roundtrip. Qed.
 Print Assumptions C08_print_parse_roundtrip.
+
+(* the written file is printable, so: under wf_state and words_ok (the strings of the tables
+   are words; checked on every snapshot by tie:text) the writers leave a file that satisfies
+   every clause of the property AND whose text the reader reads back as exactly that file *)
+Theorem C08_written_text_wf : forall (E : Type) ren (w : wstate E),
+  wf_state w -> words_ok w ->
+  exists f, written ren w f /\ wf_file f /\ parse_t4 (print_t4 f) = Some f.
+Proof. intros E. exact (@written_text_wf E). Qed.
+Print Assumptions C08_written_text_wf.
+
+(* "every numeric field is a finite number": the writers only print what they are given —
+   every SURF parameter, TRANSFORM entry, composition density and amount of the written file
+   is a numeric string of the tables; so for ANY notion of finite the clause reduces to an
+   invariant of the tables (checked with the concrete finiteb on every snapshot by tie:text,
+   and on the bytes of every real file through the reader by tie:reader).  No hypothesis
+   on the tables *)
+Theorem C08_numbers_given : forall (E : Type) ren (w : wstate E) f,
+  written ren w f -> forall x, In x (file_numbers f) -> In x (state_numbers w).
+Proof. intros E. exact (@numbers_given E). Qed.
+Print Assumptions C08_numbers_given.
+
+Theorem C08_numbers_finite : forall (E : Type) (finite : string -> Prop) ren (w : wstate E) f,
+  written ren w f -> Forall finite (state_numbers w) -> Forall finite (file_numbers f).
+Proof. intros E. exact (@numbers_finite E). Qed.
+Print Assumptions C08_numbers_finite.
+
+Theorem C08_words_okb_sound : forall (E : Type) (w : wstate E), words_okb w = true -> words_ok w.
+Proof. intros E. exact (@words_okb_sound E). Qed.
+Print Assumptions C08_words_okb_sound.
 
 (* ---- open defects: a composition that is named but not written.  The hypothesis cell_named
    (s0_cells / ws_cells) of the theorems above cannot be dropped: with closed tables, a cell
